@@ -79,11 +79,11 @@ claim("C14",
       "DESIGN.md §4 C14")
 
 claim("C17",
-      "Proof of the guard-before-insert obligations at the sites that open connections (accept and dial caps hold in the state in which a handshaker is created) and of the outstanding-request cap (result never exceeds MaxRequestsOut, whatever a peer advertises). Partial: token buckets, RAM reservations across goroutines and the address-queue containers are outside or not yet under contract (see evidence).",
+      "Proof of the guard-before-insert obligations at the sites that open connections (accept and dial caps hold in the state in which a handshaker is created) and of the outstanding-request cap (result never exceeds MaxRequestsOut, whatever a peer advertises); that the address queue counts every insertion and every replacement exactly once towards the pushed source (the step that keeps the per-source counters summing to the queue length). Partial: token buckets, RAM reservations across goroutines, the resource manager and the agreement between the queue's slice and its external btree are outside (see evidence).",
       "DESIGN.md §4 C17")
 
 claim("C18",
-      "Proof of the admission guards at every site that creates a handshaker (not connected, not banned, not blocked when the blocklist applies) and of the address filters in front of the candidate queue. Partial: the segment tree is recursive pointer code (not under contract); the candidate queue as a bounded priority set depends on an external btree.",
+      "Proof of the admission guards at every site that creates a handshaker (not connected, not banned, not blocked when the blocklist applies) and of the address filters in front of the candidate queue. Also proved: every entry of the address queue's time-ordered slice records its own position after Push, Pop, the nil-compaction (in-place, loop invariant) and the trimming step, with slices.SortFunc modelled as an injective rearrangement, so Pop clears the slot of the address it removed. Partial: the segment tree is recursive pointer code (not under contract); that the external btree holds exactly the slice's entries is assumed, not proved.",
       "DESIGN.md §4 C18")
 
 claim("C07",
